@@ -391,6 +391,12 @@ func runC04(w *World, r *Report) {
 	r.Rule("C04.stream-elem-type", "a handler whose value form returns a concrete type T packs its stream form as a stream of T, not of any, whenever some consumer unpacks streams of exactly T", 3)
 	streamElemTypeChecks(w, r, "C04.stream-elem-type")
 
+	// ---- shared with C15 / C10: stream-only hazards of the run-time checker and of the callback copy
+	r.Rule("C04.checker-present-keys", "the field-mapping run-time checker only looks at keys the chunk carries (shared with C15)", 1)
+	checkerPresentKeys(w, r, "C04.checker-present-keys")
+	r.Rule("C04.start-consumes-callback-copy", "the graph reads the input returned by onGraphStart (its own copy of the stream), not the original the callback handlers also read", 1)
+	startConsumesCopy(w, r, "C04.start-consumes-callback-copy")
+
 	r.Rule("C04.no-compile-time-stream", "run-time handler literals created at compile time capture no stream object", 1)
 	ncl := 0
 	for _, top := range []*ssa.Function{w.Fn("compose", "graph.compile"), w.Fn("compose", "Workflow.compile"), w.Fn("compose", "graph.updateToValidateMap"), w.Fn("compose", "validateFieldMapping"), w.Fn("compose", "graph.addBranch")} {
@@ -727,5 +733,58 @@ func streamElemTypeChecks(w *World, r *Report, rule string) {
 	}
 	if n < 3 {
 		undecidedf("%s: only %d concrete packStreamReader sites", rule, n)
+	}
+}
+
+// startConsumesCopy: in runner.run the START pseudo task's output is the input as returned by onGraphStart: the
+// callback aspect copies a stream input for its handlers and returns the graph's own copy; reading the original
+// makes graph and handlers share one reader (each chunk reaches only one of them).
+func startConsumesCopy(w *World, r *Report, rule string) {
+	run := w.Fn("compose", "runner.run")
+	ogs := w.Fn("compose", "onGraphStart")
+	fOut := w.Field("compose", "task", "output")
+	fKey := w.Field("compose", "task", "nodeKey")
+	startC := w.Pkg("compose").Types.Scope().Lookup("START").(*types.Const)
+	startS, _ := constString(ssa.NewConst(startC.Val(), startC.Type()))
+	n := 0
+	var calls []ssa.CallInstruction
+	for _, f := range withAnons(run) {
+		calls = append(calls, callsTo(f, ogs)...)
+	}
+	// task literals with nodeKey START
+	startAllocs := map[ssa.Value]bool{}
+	for _, fw := range fieldWrites(run) {
+		if sameField(fw.field, fKey) {
+			if s, ok := constString(fw.val); ok && s == startS {
+				startAllocs[fw.base] = true
+			}
+		}
+	}
+	for _, fw := range fieldWrites(run) {
+		if !sameField(fw.field, fOut) || !startAllocs[fw.base] {
+			continue
+		}
+		n++
+		ok := false
+		det := "the stored value is not derived from onGraphStart's result"
+		for _, c := range calls {
+			if c.Parent() != run {
+				continue
+			}
+			if e := extractOf(c, 1); e != nil && derivesFrom(fw.val, e) && instrDominates(c, fw.in) {
+				// through the captured `input` cell: the load must come after the call
+				if u, isLoad := fw.val.(*ssa.UnOp); isLoad {
+					if !instrDominates(c, u) {
+						det = "the input variable is read BEFORE onGraphStart replaced it"
+						continue
+					}
+				}
+				ok = true
+			}
+		}
+		r.Check(ok, rule, fmt.Sprintf("runner.run: START task output #%d", n), fw.in.Pos(), "input as returned by onGraphStart", det+": the graph consumes the original input stream which the callback handlers also read — with a handler implementing OnStartWithStreamInput, Collect/Transform lose the chunks the handler took (or fail with 'stream reader is empty') while Invoke/Stream are unaffected")
+	}
+	if n == 0 {
+		undecidedf("%s: no START task literal in runner.run", rule)
 	}
 }
